@@ -1013,6 +1013,14 @@ def c10_gen(tier, rng):
         for _ in range(150 if tier == "quick" else 3000):
             k = rng.choice([0, 1, 2, 3, 3, 3, 4])
             add(n, G.vT([rng.choice(P) if rng.random() < 0.7 else G.rand_value(rng) for _ in range(k)]))
+    elems = [G.vI(1), G.vI(9), G.vT([G.vI(7)]), "E", G.vS("a"), G.vF(G.fbits(1.0))]
+    for a in (G.vT([G.vI(1), G.vI(2), G.vI(3)]), G.vT([G.vS("a"), G.vF(G.fbits(1.0))]), G.vT([])):
+        for x in elems:
+            for y in elems:
+                add("contains_any", G.vT([a, G.vT([x, y])]))
+                for z in elems:
+                    add("contains_any", G.vT([a, G.vT([x, y, z])]))
+            add("contains", G.vT([a, x]))
     # substring: subject x offsets
     for s in G.STRINGS:
         blen = len(s.encode("utf-8"))
@@ -1284,10 +1292,11 @@ def c08_gen(tier, rng):
     for _ in range(n):
         e = c08_program(rng)
         src = G.render(G.flatten(e), None, "space")
-        want = ref_run(e, False)
+        ro = rng.random() < 0.3
+        want = ref_run(e, ro)
         lvl = rng.choice("sn")
-        cases.append((G.script("H", c08_setup() + ["ev %smv %s" % (lvl, hexs(src))]),
-                      {"kind": "effects", "src": src, "want": list(want)}))
+        cases.append((G.script("H", c08_setup() + ["ev %s%sv %s" % (lvl, "r" if ro else "m", hexs(src))]),
+                      {"kind": "effects", "src": src, "want": list(want), "readonly": ro}))
     for src in ["false && rec(true)", "true || rec(false)", "false && (1/0 == 1)", "(rec(1), u = 5, 1/0, rec(2), u = 6)",
                 "p += (p = 10; 1); p", "rec(1) + boom(2) * rec(3)", "u = 1; (1 / 0) == (u = 2); u = 3"]:
         cases.append((G.script("H", c08_setup() + ["ev smv " + hexs(src)]), {"kind": "effects-fixed", "src": src}))
@@ -1301,7 +1310,7 @@ def c08_oracle(case, out, model_out):
     got = triple_of(out, 0)
     want = tuple(m["want"])
     if got != want:
-        return "program %r: (result, variables, call log) = %s, the reference interpreter (strict left-to-right, first error wins) gives %s" % (m["src"], got, want)
+        return "program %r (%s context): (result, variables, call log) = %s, the reference interpreter (strict left-to-right, first error wins) gives %s" % (m["src"], "shared" if m.get("readonly") else "mutable", got, want)
     return None
 
 
@@ -1640,7 +1649,7 @@ def c09_cases(names_builtin, names_other, rng, full):
         is_b = n in L.DOCUMENTED_BUILTINS
         for kind in ("H", "N", "E", "EB"):
             for off in ((False, True) if kind in ("H", "N") else (None,)):
-                for userfn in ((False, True) if kind in ("H", "N") else (False,)):
+                for userfn in ((False, True, "fail") if kind in ("H", "N") else (False,)):
                     for var in ((False, True) if kind in ("H", "N") else (False,)):
                         for post in (("", "clone", "clrf") if kind == "H" else ("",)):
                             if not full and rng.random() < 0.5 and post:
@@ -1649,7 +1658,9 @@ def c09_cases(names_builtin, names_other, rng, full):
                             if kind in ("H", "N"):
                                 setup.append("init %s I5" % hexs("x"))
                                 setup.append("setfn %s id" % hexs("wrap"))
-                                if userfn:
+                                if userfn == "fail":
+                                    setup.append("setfn %s fail:%s" % (hexs(n), hexs("boom")))
+                                elif userfn:
                                     setup.append("setfn %s konst:%s" % (hexs(n), MARK))
                                 if var:
                                     setup.append("init %s S%s" % (hexs(n), hexs("var")))
@@ -1658,7 +1669,7 @@ def c09_cases(names_builtin, names_other, rng, full):
                                 if post:
                                     setup.append(post)
                             disabled = {"E": True, "EB": False}.get(kind, off)
-                            has_user = userfn and post != "clrf"
+                            has_user = (userfn if post != "clrf" else False)
                             forms = [("%s(3)" % n, "I3"), ("%s 3" % n, "I3"), ("%s()" % n, "E"), ("%s(3, 4)" % n, "T(I3,I4)"),
                                      ('%s "s"' % n, "S" + hexs("s")), ("%s true" % n, "B1"), ("%s 2.5" % n, "F4004000000000000"),
                                      ("%s x" % n, "I5") if kind in ("H", "N") else ("%s (())" % n, "E")]
@@ -1704,7 +1715,9 @@ def c09_post(cases, impl, model):
         log = out[out.index("LOG[") + 4:out.rindex("]")] if "LOG[" in out else ""
         for (src, arg), got in zip(m["forms"], steps):
             nested = src.startswith("wrap ")
-            if m["user"]:
+            if m["user"] == "fail":
+                want = "ERR CustomMessage(%s)" % hexs("boom")
+            elif m["user"]:
                 want = "OK " + MARK
             elif m["disabled"]:
                 want = "ERR FunctionIdentifierNotFound(%s)" % hexs(n)
@@ -1834,6 +1847,15 @@ def c14_oracle(case, out, model_out):
             return "iter_%s of %r lists [%s], the identifier occurrences in source order are [%s]" % (k, m["src"], got.get(k), w)
         if got.get(k + "m") != w:
             return "the mutable %s iterator of %r visits [%s], expected the same occurrences [%s]" % (k, m["src"], got.get(k + "m"), w)
+    via = re.search(r"via<([^>]*)>", out)
+    if via:
+        nodes_l = got.get("nodes", "").split(",") if got.get("nodes") else []
+        for k, part in enumerate(via.group(1).split(" ")):
+            seen, cnt, last, folded = part.split(":", 1)[1].split("|")
+            rest = nodes_l[k:]
+            want = (",".join(nodes_l), str(len(rest)), rest[-1] if rest else "-", "".join(x + ";" for x in rest))
+            if (seen, cnt, last, folded) != want:
+                return "Node::iter() of %r used through next() x%d then for_each / count / last / fold gives %s, the pre-order traversal gives %s" % (m["src"], k, (seen, cnt, last, folded), want)
     rt = out[out.index("renamed") + 7:]
     if rt != m["renamed"]:
         return "rewriting identifiers of %r through the five mutable iterators gives %s, expected %s" % (m["src"], rt[:300], m["renamed"][:300])
